@@ -65,7 +65,12 @@ def build_mm(bench: str) -> Any:
     from proof_generation.metamath.translate import convert_to_implication, exec_proof
     from proof_generation.proof import ProofExp
 
-    db = load_database(f'/repo/generation/mm-benchmarks/{bench}.mm', include_proof=True)
+    if bench == 'two-variables':
+        from proof_generation.metamath.parser import parse_database
+
+        db = parse_database(TWO_VARIABLES)
+    else:
+        db = load_database(f'/repo/generation/mm-benchmarks/{bench}.mm', include_proof=True)
     converter = MetamathConverter(db)
     axioms = []
     for n in converter.exported_axioms:
@@ -83,6 +88,22 @@ def build_mm(bench: str) -> Any:
             exec_proof(converter, target, self, interpreter)
 
     return Skeleton()
+
+
+TWO_VARIABLES = r"""
+$c #Pattern $.
+$v ph0 ph1 ph2 $.
+ph0-is-pattern $f #Pattern ph0 $.
+ph1-is-pattern $f #Pattern ph1 $.
+ph2-is-pattern $f #Pattern ph2 $.
+$c |- $.
+$c \imp $.
+$c ( ) $.
+imp-is-pattern $a #Pattern ( \imp ph0 ph1 ) $.
+proof-rule-prop-1 $a |- ( \imp ph0 ( \imp ph1 ph0 ) ) $.
+goal $p |- ( \imp ph2 ( \imp ph0 ph2 ) ) $=
+  ( proof-rule-prop-1 ) BAC $.
+"""
 
 
 class _B(io.BytesIO):
